@@ -20,6 +20,7 @@ class Ctx:
     def __init__(self, contract):
         self.contract = contract
         self.exact = bool(getattr(contract, "native_exact", False))  # Fractions instead of floats
+        self.world = None
 
 
 def num(ctx, v):
@@ -89,7 +90,9 @@ def build(ctx, v, t):
             setattr(o, f, x)
         return o
     if isinstance(t, S.Abstract):
-        return BUILDERS["abstract:" + t.name](ctx, v)
+        from replay.stubs import ScriptedStub
+
+        return ScriptedStub(ctx.world, t.name)
     raise TypeError("cannot build %r" % (t,))
 
 
@@ -155,6 +158,10 @@ def describe(v, depth=0):
             return v.item()
     except ImportError:
         pass
+    if type(v).__name__ in ("ScriptedStub", "World", "Ctx"):
+        return "<%s>" % type(v).__name__
+    if isinstance(v, type):
+        return "<class %s>" % v.__name__
     if hasattr(v, "__dict__"):
         d = {"__class__": type(v).__name__}
         for k, x in vars(v).items():
